@@ -1,4 +1,4 @@
-import ExprModel.Proofs.Frag
+import ExprModel.Proofs.BcFrag
 /-
 C05, part 5: closure of `Frag` under the emit schemes that contain jumps.
 -/
